@@ -50,7 +50,8 @@ class Result:
     __slots__ = ("labels", "nontrivial", "extra")
 
     def __init__(self, labels=(), nontrivial=None, extra=None):
-        self.labels = list(labels)
+        # labels: iterable of names, or {name: count}
+        self.labels = labels if isinstance(labels, dict) else list(labels)
         self.nontrivial = nontrivial
         self.extra = extra
 
@@ -149,6 +150,7 @@ class Stats:
 
     def __init__(self):
         self.evaluations = 0
+        self.cases = 0
         self.labels = collections.Counter()
         self.nontrivial = set()
         self.samples = []
@@ -158,25 +160,30 @@ class Stats:
         self.notes = {}
 
     def record(self, case, res, keep_sample=True):
-        self.evaluations += 1
+        self.evaluations += (res.extra or {}).get("evaluations", 1)
+        self.cases += 1
         for lab in res.labels:
             self.labels[lab] += 1
+        if isinstance(res.labels, dict):
+            for lab, n in res.labels.items():
+                self.labels[lab] += n - 1
         if res.extra:
             self.excluded += res.extra.get("excluded", 0)
         if res.nontrivial is not None:
-            self.nontrivial.add(
-                res.nontrivial
-                if isinstance(res.nontrivial, str)
-                else canon(res.nontrivial)
-            )
-            if keep_sample and len(self.samples) < 3:
-                self.samples.append(to_jsonable(case))
+            keys = (res.nontrivial if isinstance(res.nontrivial, (list, set, frozenset))
+                    else [res.nontrivial])
+            for key in keys:
+                self.nontrivial.add(key if isinstance(key, str) else canon(key))
+            if keep_sample and len(self.samples) < 3 and keys:
+                sample = (res.extra or {}).get("sample")
+                self.samples.append(to_jsonable(sample if sample is not None else case))
 
     def fail(self, case, v):
         self.failures.append((v.clause, str(v.detail)[:2000], to_jsonable(case)))
 
     def merge(self, other):
         self.evaluations += other.evaluations
+        self.cases += other.cases
         self.labels.update(other.labels)
         self.nontrivial |= other.nontrivial
         for s in other.samples:
@@ -438,6 +445,7 @@ def _main(prop, prop_mod, tier, seed, ns, t0):
         "level": prop.level,
         "coverage": {
             "evaluations": stats.evaluations,
+            "generated_cases": stats.cases,
             "distinct_nontrivial": len(stats.nontrivial),
             "rule": prop.rule,
             "samples": stats.samples[:6] or ["<none recorded>"],
